@@ -1,4 +1,8 @@
-"""Apply each seeded change to /repo, run the named check(s), undo. Usage: python -m harness.seedtest [dir...] [--tier quick]"""
+"""Apply each seeded change, run the named check(s), undo.
+Usage: python -m harness.seedtest [dir...] [--all] [--props=C01,C02] [--jobs=N]
+Without --jobs the change is applied to /repo itself (git -C /repo apply ...; git -C /repo checkout -- .), the way the
+checks are meant to be used.  With --jobs=N, N scratch worktrees of /repo (under the system temp dir, removed at the
+end) are used in parallel, each check running with VERIF_REPO pointing at its worktree."""
 import json, os, subprocess, sys, glob
 
 def sh(cmd, **kw):
@@ -39,32 +43,75 @@ def main():
     return 0
 
 
-def _run(dirs, props_override):
+def _one(d, props_override, repo):
     results = {}
+    d = os.path.abspath(d.rstrip("/"))
+    meta = json.load(open(os.path.join(d, "meta.json")))
+    props = props_override or meta.get("checks") or [meta["property"]]
+    r = sh("git -C %s apply %s/patch.diff" % (repo, d))
+    if r.returncode != 0:
+        print("%s: PATCH DOES NOT APPLY: %s" % (d, r.stdout[:200]), flush=True)
+        return results
+    try:
+        for p in props:
+            o = sh("cd /verif && VERIF_REPO=%s ./check %s --tier quick" % (repo, p), timeout=1800)
+            viol = [l for l in o.stdout.splitlines() if l.startswith("VIOLATION")]
+            print("%s  check=%s  exit=%d  %s" % (os.path.basename(d), p, o.returncode, (viol[0] if viol else "no violation")[:150]), flush=True)
+            how = "-"
+            if viol:
+                how = "no-failing-input-found" if "no-failing-input-found" in viol[0] else "concrete failing input"
+                try:
+                    rp = json.load(open(viol[0].split("replay=")[1].split()[0]))
+                    how += " (%s)" % rp.get("key")
+                except Exception:
+                    pass
+            results[(os.path.basename(d), p)] = {"violation": bool(viol), "how": how}
+    finally:
+        sh("git -C %s checkout -- ." % repo)
+    return results
+
+
+def _run(dirs, props_override):
+    jobs = 1
+    for a in sys.argv[1:]:
+        if a.startswith("--jobs="):
+            jobs = int(a.split("=", 1)[1])
+    results = {}
+    if jobs <= 1:
+        for d in dirs:
+            results.update(_one(d, props_override, "/repo"))
+        return results
+    import queue, tempfile, threading
+    root = tempfile.mkdtemp(prefix="verif_seed_wt_")
+    wts = []
+    for k in range(jobs):
+        wt = os.path.join(root, "wt%d" % k)
+        assert sh("git -C /repo worktree add -q --detach %s HEAD" % wt).returncode == 0
+        wts.append(wt)
+    q = queue.Queue()
     for d in dirs:
-        d = os.path.abspath(d.rstrip("/"))
-        meta = json.load(open(os.path.join(d, "meta.json")))
-        props = props_override or meta.get("checks") or [meta["property"]]
-        r = sh("git -C /repo apply %s/patch.diff" % d)
-        if r.returncode != 0:
-            print("%s: PATCH DOES NOT APPLY: %s" % (d, r.stdout[:200])); continue
-        try:
-            for p in props:
-                o = sh("cd /verif && ./check %s --tier quick" % p, timeout=1800)
-                viol = [l for l in o.stdout.splitlines() if l.startswith("VIOLATION")]
-                last = o.stdout.strip().splitlines()[-1] if o.stdout.strip() else ""
-                print("%s  check=%s  exit=%d  %s" % (os.path.basename(d), p, o.returncode, (viol[0] if viol else "no violation")[:150]))
-                how = "-"
-                if viol:
-                    how = "no-failing-input-found" if "no-failing-input-found" in viol[0] else "concrete failing input"
-                    try:
-                        rp = json.load(open(viol[0].split("replay=")[1].split()[0]))
-                        how += " (%s)" % rp.get("key")
-                    except Exception:
-                        pass
-                results[(os.path.basename(d), p)] = {"violation": bool(viol), "how": how}
-        finally:
-            sh("git -C /repo checkout -- .")
+        q.put(d)
+    lock = threading.Lock()
+
+    def worker(wt):
+        while True:
+            try:
+                d = q.get_nowait()
+            except queue.Empty:
+                return
+            res = _one(d, props_override, wt)
+            with lock:
+                results.update(res)
+    try:
+        ts = [threading.Thread(target=worker, args=(wt,)) for wt in wts]
+        [t.start() for t in ts]
+        [t.join() for t in ts]
+    finally:
+        for wt in wts:
+            sh("git -C /repo worktree remove --force %s" % wt)
+        sh("git -C /repo worktree prune")
+        import shutil
+        shutil.rmtree(root, ignore_errors=True)
     return results
 
 if __name__ == "__main__":
